@@ -467,10 +467,13 @@ def entries():
             continue
         for dname, fn in unit.decoders():
             ck = cfgkeys.get(uname)
+            rep = REPRO.get(dname)
             if uname == "UslpTransferFrameDataField":
                 ck = lambda r, _u=unit: (r["rule"] in RU.FIXED_RULES, len(_u.ref(r)))  # noqa: E731
+                rep = lambda r, lit, _u=unit, _typed=(dname == "TransferFrameDataField.unpack"): _tfdf_repro(  # noqa: E731
+                    {"ft": ("fixed" if r["rule"] in RU.FIXED_RULES else "var") if _typed else None, "trunc": False, "exact": len(_u.ref(r))}, lit)
             e = Entry(f"{uname}:{dname}", dname, _bind2(fn), _unit_corpus(unit), prefix, steer=dname in STEER or (uname in ("PacketFieldEnum", "FailureNotice")),
-                      family=FAMILY.get(uname), crc=unit.crc_protected, repro=REPRO.get(dname), cfgkey=ck, unit=unit)
+                      family=FAMILY.get(uname), crc=unit.crc_protected, repro=rep, cfgkey=ck, unit=unit)
             out[e.key] = e
     for e in _extras(reg):
         out[e.key] = e
